@@ -109,6 +109,20 @@ def check_guard_and_counter(inc, rule, prefix):
     return E
 
 
+def alpha_field(prog, cls):
+    """(field name or None, term) of the smoothing parameter actually given to the exponential-smoothing
+    tracker in the constructor chain of an explainer (no reliance on the private attribute's name)."""
+    s = prog.summarise(cls, "__init__")
+    es = prog.find_class("ExponentialSmoothingTracker")
+    for ev, ctx in walk(s.events):
+        if isinstance(ev, ir.Construct) and es is not None and ev.qual == es.qual:
+            a = dict(ev.kwargs).get("alpha", ev.args[0] if ev.args else None)
+            if a is not None:
+                f = next((name for name, t in s.fields.items() if t == a), None)
+                return f, a
+    return None, None
+
+
 def tracker_operator(run, prog, cls, rule, prefix):
     """All estimate trackers are independent copies of one base tracker chosen by dynamic_setting/alpha."""
     from .common import gate_on
@@ -158,11 +172,10 @@ def tracker_operator(run, prog, cls, rule, prefix):
     if ok:
         pos, kw = new_items(sel[0])
         a = kw.get("alpha", pos[0] if pos else None)
-        eff = s.fields.get("_smoothing_alpha")
-        dflt = gate_on(eff, ("cmp", "is", sa, ("const", None))) if eff is not None else None
-        eff_ok = eff == sa or (dflt is not None and const_value(dflt[0]) is not None and
-                               abs(float(const_value(dflt[0])) - 0.001) < 1e-12 and dflt[1] == sa)
-        if not (a is not None and a == eff and eff_ok):
+        dflt = gate_on(a, ("cmp", "is", sa, ("const", None))) if a is not None else None
+        eff_ok = a == sa or (dflt is not None and const_value(dflt[0]) is not None and
+                             abs(float(const_value(dflt[0])) - 0.001) < 1e-12 and dflt[1] == sa)
+        if not (a is not None and eff_ok):
             run.fail(rule, f"{prefix}.alpha", f"{s.path}:{s.fn.lineno}", fq, f"alpha = {ir.show_nl(a) if a else None}",
                      f"the exponential smoothing tracker must use the configured smoothing parameter (default 0.001); "
                      f"it uses {ir.show_nl(a) if a else None}")
